@@ -557,9 +557,12 @@ def rule_text(ctx):
                  'destination': 'destination',
                  'arg0namespace': 'arg0namespace'}
     text = {}
+    from ..loader import nested_by_role as _nbr
+    _add = _nbr(fi, 'add', ('called_with', 2))
+    add_name = _add.node.name if _add is not None else 'add'
     for node in prog._iter_scope(fi.node):
         if isinstance(node, ast.Call) and isinstance(node.func, ast.Name) \
-                and node.func.id == 'add' and len(node.args) == 2 and \
+                and node.func.id == add_name and len(node.args) == 2 and \
                 isinstance(node.args[1], ast.Name):
             k = node.args[0]
             if isinstance(k, ast.Constant):
@@ -573,7 +576,7 @@ def rule_text(ctx):
             kn, vn = (t.id for t in node.target.elts)
             calls_add = any(
                 isinstance(c, ast.Call) and isinstance(c.func, ast.Name)
-                and c.func.id == 'add' and len(c.args) == 2 and
+                and c.func.id == add_name and len(c.args) == 2 and
                 isinstance(c.args[0], ast.Name) and c.args[0].id == kn and
                 isinstance(c.args[1], ast.Name) and c.args[1].id == vn
                 for st in node.body for c in ast.walk(st))
@@ -622,7 +625,9 @@ def rule_text(ctx):
            'argument-path constraints must be written as argNpath; written '
            'as %s' % sorted(key_template('arg_path')), nontrivial=False)
     # local registration passes the same constraints in the router's order
-    ok_fi = fi.nested.get('ok')
+    from ..loader import nested_by_role
+    ok_fi = nested_by_role(fi, 'ok', [('passed_to', 'addCallbacks', 0),
+                                      ('passed_to', 'addCallback', 0)])
     target = prog.func(MR + '.addMatch')
     okc = False
     detail = None
@@ -663,7 +668,8 @@ def rule_text(ctx):
 def proxy_wrapper(ctx):
     prog = ctx.prog
     fi = prog.func('objects.RemoteDBusObject.notifyOnSignal')
-    w = fi.nested.get('callback_caller')
+    from ..loader import nested_by_role
+    w = nested_by_role(fi, 'callback_caller', ('passed_to', 'addMatch', 0))
     if w is None:
         ctx.ob('C12.D7', fi.qualname, 'wrapper-exists', False,
                'the signal wrapper is missing')
